@@ -330,7 +330,8 @@ def run_case(case):
     cs = case["ops"]
     stats = {}
     refs = bool(case.get("refs"))
-    res = driven.drive_pack(cs, make_calls_for, "bundled", stats, refs=refs)
+    # all calls of a pack go through ONE client whose transport has a default header: whatever one call supplies must not show up in the next
+    res = driven.drive_pack(cs, make_calls_for, "bundled", stats, refs=refs, transport_kwargs={"default_headers": {"X-Default": "dflt"}})
     found = []
     seen = set()
     nontriv = []
